@@ -1,0 +1,8 @@
+//go:build verif
+
+package store
+
+// VerifRegister makes NewStore(url) return the given store (verification harness only).
+func VerifRegister(url string, s Store) {
+	stores.Store(url, s)
+}
